@@ -17,6 +17,8 @@
   the receiver's acceptance window) is inherent to 16-bit numbering; see notes/C07.md.
 -/
 import SA.Proofs.Queue
+import SA.Proofs.QueueLive
+import SA.Proofs.QueueWrap
 import SA.Proofs.DnsWrites
 import SA.Model.DnsExchange
 namespace SA.Queue
@@ -105,6 +107,174 @@ example : WellBounded Cfg.gen 1 0 1 ((List.replicate 70000 [Ev.write false [7], 
 
 /-- forged packets are outside the hypothesis -/
 example : ¬ WellBounded Cfg.gen 1 10 10 [.inject true 5 [1]] := by decide
+
+/-! ## Eventual delivery: once the path stops losing, everything accepted arrives -/
+
+/-- regenerated fact the liveness proof needs in addition to `Cfg.gen_good`: the receiver's duplicate
+    cache is trimmed with `acked = acked[1:]` (it keeps the newest numbers, in particular the last one
+    released).  Fails to compile when the regenerated fact changes. -/
+theorem Cfg.gen_live : Cfg.gen.inTrim = 2 := by decide
+
+/-- every reachable state of a well-bounded history also satisfies the cache characterisation -/
+theorem reach_live {c : Cfg} (hg : c.Good) (ht : c.inTrim = 2) {sab sba mtu K Bd : Nat} {evs : List Ev}
+    (hsab : sab < MOD) (hsba : sba < MOD) (h : WellBounded c mtu K Bd evs) :
+    LiveInv c sab sba K Bd (runS c mtu (init sab sba) evs) :=
+  run_live h.1 (consts_of hg h) ht evs _ (init_live hsab hsba) h.2.2
+
+/-- **eventual delivery**: take the state `st` after ANY well-bounded history (losses, duplicates,
+    replays, queued and half-acknowledged chunks in both directions) and let `n` consecutive exchanges be
+    delivered (`tail n`; an exchange in which A has nothing to send is a poll).  If
+    `n ≥ |A.out|` and `n ≥ |B.out| + 1` — in particular if `n ≥ |A.out| + |B.out| + 1` — then afterwards
+    both out-queues are empty, nothing further was accepted, and each end has released exactly the bytes
+    the other end's writes accepted.
+    (`|B.out| + 1`: B's chunk travels in an answer and its acknowledgement only in the *next* query.) -/
+theorem C07_eventual_delivery (sab sba mtu K Bd : Nat) (evs : List Ev) (hsab : sab < MOD) (hsba : sba < MOD)
+    (h : WellBounded Cfg.gen mtu K Bd evs) (n : Nat)
+    (hna : (runS Cfg.gen mtu (init sab sba) evs).a.outq.out.length ≤ n)
+    (hnb : (runS Cfg.gen mtu (init sab sba) evs).b.outq.out.length + 1 ≤ n) :
+    (runS Cfg.gen mtu (runS Cfg.gen mtu (init sab sba) evs) (tail n)).a.outq.out = [] ∧
+    (runS Cfg.gen mtu (runS Cfg.gen mtu (init sab sba) evs) (tail n)).b.outq.out = [] ∧
+    (runS Cfg.gen mtu (runS Cfg.gen mtu (init sab sba) evs) (tail n)).a.acc
+      = (runS Cfg.gen mtu (init sab sba) evs).a.acc ∧
+    (runS Cfg.gen mtu (runS Cfg.gen mtu (init sab sba) evs) (tail n)).b.acc
+      = (runS Cfg.gen mtu (init sab sba) evs).b.acc ∧
+    (runS Cfg.gen mtu (runS Cfg.gen mtu (init sab sba) evs) (tail n)).b.inq.rel
+      = (runS Cfg.gen mtu (init sab sba) evs).a.acc ∧
+    (runS Cfg.gen mtu (runS Cfg.gen mtu (init sab sba) evs) (tail n)).a.inq.rel
+      = (runS Cfg.gen mtu (init sab sba) evs).b.acc :=
+  tail_drains (consts_of Cfg.gen_good h) Cfg.gen_live (reach_live Cfg.gen_good Cfg.gen_live hsab hsba h)
+    ⟨hna, hnb⟩
+
+/-- the bound of the brief: `|A.out| + |B.out| + 1` delivered exchanges are enough -/
+example (sab sba mtu K Bd : Nat) (evs : List Ev) (hsab : sab < MOD) (hsba : sba < MOD)
+    (h : WellBounded Cfg.gen mtu K Bd evs) (n : Nat)
+    (hn : (runS Cfg.gen mtu (init sab sba) evs).a.outq.out.length
+        + (runS Cfg.gen mtu (init sab sba) evs).b.outq.out.length + 1 ≤ n) :
+    (runS Cfg.gen mtu (runS Cfg.gen mtu (init sab sba) evs) (tail n)).b.inq.rel
+      = (runS Cfg.gen mtu (init sab sba) evs).a.acc :=
+  (C07_eventual_delivery sab sba mtu K Bd evs hsab hsba h n (by omega) (by omega)).2.2.2.2.1
+
+/-- **eventual delivery over a lossy continuation**: the delivered exchanges need not be consecutive.
+    After ANY well-bounded history, let `tl` be any write-free continuation — exchanges of every fate
+    (query lost, answer lost, duplicated, replays at most `K` old) and reads, in any order.  As soon as
+    `tl` contains `n ≥ |A.out|`, `n ≥ |B.out| + 1` delivered exchanges (`countP isD`), both out-queues are
+    empty afterwards and released = accepted in both directions: losses in between never undo progress
+    (`xchg_mono`, `mono_measure`). -/
+theorem C07_eventual_delivery_lossy (sab sba mtu K Bd : Nat) (evs tl : List Ev) (hsab : sab < MOD)
+    (hsba : sba < MOD) (h : WellBounded Cfg.gen mtu K Bd evs) (htl : tl.all (tailOk K) = true)
+    (hna : (runS Cfg.gen mtu (init sab sba) evs).a.outq.out.length ≤ tl.countP isD)
+    (hnb : (runS Cfg.gen mtu (init sab sba) evs).b.outq.out.length + 1 ≤ tl.countP isD) :
+    (runS Cfg.gen mtu (runS Cfg.gen mtu (init sab sba) evs) tl).a.outq.out = [] ∧
+    (runS Cfg.gen mtu (runS Cfg.gen mtu (init sab sba) evs) tl).b.outq.out = [] ∧
+    (runS Cfg.gen mtu (runS Cfg.gen mtu (init sab sba) evs) tl).a.acc
+      = (runS Cfg.gen mtu (init sab sba) evs).a.acc ∧
+    (runS Cfg.gen mtu (runS Cfg.gen mtu (init sab sba) evs) tl).b.acc
+      = (runS Cfg.gen mtu (init sab sba) evs).b.acc ∧
+    (runS Cfg.gen mtu (runS Cfg.gen mtu (init sab sba) evs) tl).b.inq.rel
+      = (runS Cfg.gen mtu (init sab sba) evs).a.acc ∧
+    (runS Cfg.gen mtu (runS Cfg.gen mtu (init sab sba) evs) tl).a.inq.rel
+      = (runS Cfg.gen mtu (init sab sba) evs).b.acc :=
+  lossy_tail_drains h.1 (consts_of Cfg.gen_good h) Cfg.gen_live
+    (reach_live Cfg.gen_good Cfg.gen_live hsab hsba h) htl ⟨hna, hnb⟩
+
+/-- non-vacuity: a continuation with every fate and reads between its three delivered exchanges -/
+example : let tl : List Ev := [.xchg .ql, .xchg .d, .xchg .al, .read true 1, .xchg .dup2, .xchg .d, .xchg (.rp 3),
+                               .read false 5, .xchg .dup1, .xchg .d]
+    tl.all (tailOk 5) = true ∧ tl.countP isD = 3 := by decide
+
+/-- all hypotheses hold together on a concrete history (two chunks queued at each end, start numbers
+    65535 / 7, so the tail crosses the wrap) -/
+example := C07_eventual_delivery_lossy 65535 7 1 5 2
+  [.write false [1, 2], .write true [8, 9], .xchg .ql, .xchg .al]
+  [.xchg .ql, .xchg .d, .xchg .al, .read true 1, .xchg .dup2, .xchg .d, .xchg (.rp 3), .read false 5,
+   .xchg .dup1, .xchg .d]
+  (by decide) (by decide) (by decide) (by decide) (by decide +kernel) (by decide +kernel)
+
+example := C07_eventual_delivery 65535 7 1 5 2
+  [.write false [1, 2], .write true [8, 9], .xchg .ql, .xchg .al] (by decide) (by decide) (by decide) 3
+  (by decide +kernel) (by decide +kernel)
+
+/-- one delivered exchange makes progress from every reachable state: the head of a non-empty `A.out`
+    is delivered, acknowledged and removed; the variant of `B.out` (`nuB` = its length, plus one while A
+    has not released its head) decreases -/
+theorem C07_delivered_exchange_progress (sab sba mtu K Bd : Nat) (evs : List Ev) (hsab : sab < MOD)
+    (hsba : sba < MOD) (h : WellBounded Cfg.gen mtu K Bd evs) :
+    (xchgS Cfg.gen (runS Cfg.gen mtu (init sab sba) evs) .d).a.outq.out.length
+      = (runS Cfg.gen mtu (init sab sba) evs).a.outq.out.length - 1 ∧
+    nuB (xchgS Cfg.gen (runS Cfg.gen mtu (init sab sba) evs) .d)
+      ≤ nuB (runS Cfg.gen mtu (init sab sba) evs) - 1 :=
+  let p := d_progress (consts_of Cfg.gen_good h) (reach_live Cfg.gen_good Cfg.gen_live hsab hsba h)
+  ⟨p.1, p.2.1⟩
+
+/-! non-vacuity and tightness: two chunks queued at each end after a lost query and a lost answer;
+    `max 2 (2+1) = 3` delivered exchanges drain everything, two do not. -/
+example : WellBounded Cfg.gen 1 0 2 [.write false [1, 2], .write true [8, 9], .xchg .ql, .xchg .al] := by decide
+
+example :
+    let st := runS Cfg.gen 1 (init 65535 7) [.write false [1, 2], .write true [8, 9], .xchg .ql, .xchg .al]
+    st.a.outq.out.length = 2 ∧ st.b.outq.out.length = 2 ∧
+    (runS Cfg.gen 1 st (tail 2)).b.outq.out ≠ [] ∧
+    (runS Cfg.gen 1 st (tail 3)).b.outq.out = [] ∧ (runS Cfg.gen 1 st (tail 3)).a.inq.rel = [8, 9] ∧
+    (runS Cfg.gen 1 st (tail 3)).b.inq.rel = [1, 2] := by
+  decide +kernel
+
+/-! ## The trimming the tree had before the repair loses data at the 16-bit wrap -/
+
+/-- **witness (keep-oldest trimming)**: with `q.acked = q.acked[0:MaxCachedChunks]` in
+    `cleanAckedChunks` (fact value 0; all other facts as regenerated today), for EVERY pair of starting
+    sequence numbers, the stop-and-wait run "write one byte, one delivered exchange" — a well-bounded
+    history without a single loss — reaches after `65536 + j` rounds (`1 ≤ j ≤ 128`) a state in which A's
+    out-queue is empty (every `Write` returned success), `65536 + j` bytes were accepted and B has released
+    only `65536`: the chunks of rounds 65536 … 65536+j-1 were dropped from `out` unsent.
+    Proved through the inductive characterisation `Ph1`/`Ph2` of the run (SA.Proofs.QueueWrap: A's cache is
+    the first min(k,128) numbers ever acknowledged), not by evaluating 65537 rounds. -/
+theorem C07_witness_wrap (s sba j : Nat) (hs : s < MOD) (hj : j ≤ 128) :
+    WellBounded Cfg.keepOldest 1 0 1 (rounds (65536 + j)) ∧
+    (runS Cfg.keepOldest 1 (init s sba) (rounds (65536 + j))).a.outq.out = [] ∧
+    (runS Cfg.keepOldest 1 (init s sba) (rounds (65536 + j))).b.inq.rel.length = 65536 ∧
+    (runS Cfg.keepOldest 1 (init s sba) (rounds (65536 + j))).a.acc.length = 65536 + j :=
+  ⟨⟨by decide, by decide, rounds_ok _⟩, wrap_counts hs rfl j hj⟩
+
+/-- hence the statement proved for the current tree (`C07_wrap : WrapStmt Cfg.gen`) is false for the
+    facts of the tree before the repair -/
+theorem C07_witness_wrap_stmt : ¬ WrapStmt Cfg.keepOldest := by
+  intro hw
+  obtain ⟨hwb, h0, h1, h2⟩ := C07_witness_wrap 0 0 1 (by decide) (by decide)
+  have := (hw 0 0 1 0 1 _ (by decide) (by decide) hwb).2.2.1 h0
+  rw [this] at h1
+  omega
+
+/-- the invariant behind it: from round 128 on (up to the end of the dropping phase) A's ack cache
+    `out.acked` is frozen at the first 128 sequence numbers ever acknowledged, `s, s+1, …, s+127 (mod 2^16)` —
+    every later acknowledgement is appended and cut off again by `acked[0:128]` -/
+theorem C07_witness_wrap_cache (s sba n : Nat) (hs : s < MOD) (h1 : 128 ≤ n) (h2 : n ≤ 65536 + 128) :
+    (runS Cfg.keepOldest 1 (init s sba) (rounds n)).a.outq.acked = (List.range' 0 128).map (seqOf s) := by
+  rcases Nat.le_total n 65536 with hle | hge
+  · have h := ph1_run (s := s) (sba := sba) n 0 (init s sba) (ph1_init hs) (by omega)
+    rw [Nat.zero_add] at h
+    rw [h.aack, Nat.min_eq_right h1]
+  · obtain ⟨j, rfl⟩ : ∃ j, n = 65536 + j := ⟨n - 65536, by omega⟩
+    exact (wrap_state (sba := sba) hs rfl j (by omega)).aack
+
+example := C07_witness_wrap 65535 0 128 (by decide) (by decide)
+example := C07_witness_wrap_cache 65000 3 65537 (by decide) (by decide) (by decide)
+
+/-- contrast (non-vacuity of the run): the same rounds with the current facts never lose anything,
+    for any number of rounds -/
+example (s sba n : Nat) (hs : s < MOD) (hsba : sba < MOD) :
+    (runS Cfg.gen 1 (init s sba) (rounds n)).a.outq.out = [] →
+    (runS Cfg.gen 1 (init s sba) (rounds n)).b.inq.rel = (runS Cfg.gen 1 (init s sba) (rounds n)).a.acc :=
+  (C07_write_ok_delivered s sba 1 0 1 (rounds n) hs hsba ⟨by decide, by decide, rounds_ok n⟩).1
+
+/-! ## The acceptance-window loop as the code runs it -/
+
+/-- `InQ.append` runs the loop of `InQueue.Append` (`for i := next+Lo; i != next+Hi; i++`, a uint16
+    counter); for every loop bounds and all uint16 arguments it computes the closed form `inWindow` -/
+theorem C07_window_loop (c : Cfg) (next seq : Nat) (hseq : seq < MOD) :
+    inWindowL c next seq = inWindow c next seq := inWindowL_eq c hseq
+
+example : inWindowL Cfg.gen 65500 91 = true ∧ inWindowL Cfg.gen 65500 92 = false ∧
+    inWindowL Cfg.gen 65500 65500 = false ∧ inWindowL Cfg.gen 65500 65501 = true := by decide +kernel
 
 end SA.Queue
 
@@ -241,6 +411,13 @@ end SA.DnsWrites
 #print axioms SA.Queue.C07_safety
 #print axioms SA.Queue.C07_write_ok_delivered
 #print axioms SA.Queue.C07_wrap
+#print axioms SA.Queue.C07_eventual_delivery
+#print axioms SA.Queue.C07_eventual_delivery_lossy
+#print axioms SA.Queue.C07_delivered_exchange_progress
+#print axioms SA.Queue.C07_witness_wrap
+#print axioms SA.Queue.C07_witness_wrap_stmt
+#print axioms SA.Queue.C07_witness_wrap_cache
+#print axioms SA.Queue.C07_window_loop
 #print axioms SA.DnsExchange.C07_loss_absorbed
 #print axioms SA.DnsExchange.C07_witness_loss_not_absorbed
 #print axioms SA.DnsWrites.C07_write_reports_enqueued
